@@ -1,6 +1,6 @@
 (* C04 — codec for the correspondence driver. *)
 From Coq Require Import Bool Arith ZArith String List.
-From CBI Require Import Lib.Res Lib.Data Model.C01 Spec.C01 Model.C04 Spec.C04.
+From CBI Require Import Lib.Res Lib.Data Model.C01 Spec.C01 Model.C04 Spec.C04 Model.C04d.
 Import ListNotations.
 Local Open Scope string_scope.
 
@@ -53,15 +53,34 @@ Definition dec_file (d : data) : option (path * list (line act cond)) :=
                      | Some p, Some ks => Some (p, number 0 ks) | _, _ => None end
   | _ => None
   end.
-Definition dec_entry (d : data) : option entry :=
+(* (file dirs defs incs): the directories are the configured list itself;
+   (file dirs defs incs kinds): dirs are the -I / -isystem values in command-line order and
+   kinds says which is which (1 = -isystem): M and S then get the list that parse_args /
+   a compiler builds from them *)
+Definition dec_entry2 (d : data) : option (entry * entry) :=
   match d with
   | DList [f; ds; defs; incs] =>
       match dec_path f, as_list_of dec_path ds, as_list_of (as_pair as_str dec_mval) defs, as_list_of dec_path incs with
-      | Some f, Some ds, Some defs, Some incs => Some {| e_file := f; e_dirs := ds; e_defs := defs; e_incs := incs |}
+      | Some f, Some ds, Some defs, Some incs =>
+          let e := {| e_file := f; e_dirs := ds; e_defs := defs; e_incs := incs |} in Some (e, e)
       | _, _, _, _ => None
+      end
+  | DList [f; ds; defs; incs; ks] =>
+      match dec_path f, as_list_of dec_path ds, as_list_of (as_pair as_str dec_mval) defs, as_list_of dec_path incs,
+            as_list_of as_bool ks with
+      | Some f, Some ds, Some defs, Some incs, Some ks =>
+          if Nat.eqb (List.length ks) (List.length ds) then
+            let fl := combine ks ds in
+            Some ({| e_file := f; e_dirs := configured_M fl; e_defs := defs; e_incs := incs |},
+                  {| e_file := f; e_dirs := configured_S fl; e_defs := defs; e_incs := incs |})
+          else None
+      | _, _, _, _, _ => None
       end
   | _ => None
   end.
+
+(* the plain four-field form (used by the C08/C10/C13/C18 codecs) *)
+Definition dec_entry (d : data) : option entry := option_map fst (dec_entry2 d).
 
 Definition enc_path (p : path) : data := of_list DStr p.
 Definition enc_mval (v : mval) : data :=
@@ -81,8 +100,8 @@ Definition include_depth : nat := 40.
 Definition run_C04 (d : data) : data :=
   match d with
   | DList [files; e] =>
-      match as_list_of dec_file files, dec_entry e with
-      | Some fs, Some e => DList [enc_plat (run_tu_M fs include_depth e); enc_plat (run_tu_S fs include_depth e)]
+      match as_list_of dec_file files, dec_entry2 e with
+      | Some fs, Some (eM, eS) => DList [enc_plat (run_tu_M fs include_depth eM); enc_plat (run_tu_S fs include_depth eS)]
       | _, _ => bad_case
       end
   | _ => bad_case
